@@ -88,11 +88,11 @@ def answerMds (fs : List (String × String)) : String :=
         let lamPlus : Vec d Rat := fun j => if lam.get j < 0 then 0 else lam.get j
         let sqBad := (List.finRange d).any fun j =>
           !nanCols.contains j.1 &&
-            (sD.get j < 0 || absR (sD.get j * sD.get j - lamPlus j) > εtight * (if lamMax < 1 then 1 else lamMax))
+            (sD.get j < 0 || absR (sD.get j * sD.get j - lamPlus j) > εtight * scale)
         let ymax := maxAbsM Y.get
         let Ymasked : Mat N d Rat := fun i j => if nanCols.contains j.1 then 0 else Y.get i j
         let Pmasked : Mat N d Rat := fun i j => if nanCols.contains j.1 then 0 else post V.get sD.get i j
-        let cpost := cmpMat Ymasked Pmasked (εtight * (if ymax < 1 then 1 else ymax))
+        let cpost := cmpMat Ymasked Pmasked (εtight * (if ymax == 0 then 1 else ymax))
         let postTxt :=
           if sqBad then "FAIL-sqrt-contract"
           else if !nanCols.isEmpty && !cpost.isBad then "nan-columns:" ++ cpost.show
@@ -100,7 +100,7 @@ def answerMds (fs : List (String × String)) : String :=
         -- 4. the property on Y itself: YᵀY = diag lam, B Y = Y diag lam (columns span the leading eigenspace)
         let g := Cert.maxAbs (Cert.gramDefect Ymasked lamPlus)
         let ry := Cert.residMax B.get Ymasked lam.get
-        let yscale := if ymax < 1 then 1 else ymax
+        let yscale := if ymax == 0 then 1 else ymax
         let nanTiny := nanCols.all fun j => if h : j < d then absR (lam.get ⟨j, h⟩) ≤ εrel * scale else true
         let yTxt :=
           if !nanCols.isEmpty then
@@ -117,7 +117,7 @@ def answerMds (fs : List (String × String)) : String :=
               let D2 := DMat.ofFn (sqDistOfPts X.get)
               let YD := DMat.ofFn (fun i j => rowSqDist Y.get i j)
               let dmax := maxAbsM D2.get
-              match cmpMat YD.get D2.get (εrel * (if dmax < 1 then 1 else dmax)) with
+              match cmpMat YD.get D2.get (εrel * (if dmax == 0 then 1 else dmax)) with
               | .exact => "ok:exact"
               | .approx e => s!"ok:{showMag e}"
               | c => "FAIL-" ++ c.show
